@@ -771,6 +771,8 @@ def _run_fuzz(col, seconds: int):
     from vp.core.framework import REPO, VERIF
     target = os.path.join(VERIF, "fuzz", "fuzz_c26.py")
     deps = os.path.join(VERIF, ".deps")
+    if not os.path.isdir(os.path.join(deps, "atheris")) and os.path.isdir("/verif/.deps/atheris"):
+        deps = "/verif/.deps"      # snapshot runs (vp run) share the installed copy
     if not (os.path.exists(target) and os.path.isdir(os.path.join(deps, "atheris"))):
         col.extra["fuzz"] = "skipped: atheris or fuzz target not installed"
         return
